@@ -191,7 +191,7 @@ def run_harness(crate, tdir, entry, src):
     rustflags = entry.get("cfg", [])
     if rustflags:
         env["RUSTFLAGS"] = " ".join(f"--cfg {c}" for c in rustflags)
-    rc, out, secs, to = run(cmd, cwd=crate, timeout=entry.get("timeout", 300), mem_gb=entry.get("mem_gb", 6) + 2, env=env)
+    rc, out, secs, to = run(cmd, cwd=crate, timeout=entry.get("timeout", 300), mem_gb=entry.get("mem_gb", 6) * 1.25 + 2, env=env)
     r = classify(entry, src, rc, out, secs, to)
     m = re.search(r"MAXRSS_KB=(\d+)", out)
     r["max_rss_gb"] = round(int(m.group(1)) / 1e6, 2) if m else None
